@@ -153,6 +153,12 @@ func (s *State) Get(key StoreKey) ([]byte, error) {
 		return result, err
 	}
 
+	// the metered cache refused the read (block gas used up): only a real miss may go on to the
+	// tree, which would answer with the value of the last commit whatever was written since
+	if err == ErrExceedGasLimit {
+		return nil, err
+	}
+
 	// if didn't get result in cache, get from ChainState
 	return s.cs.Get(key)
 }
@@ -184,8 +190,10 @@ func (s *State) Exists(key StoreKey) bool {
 
 	// check existence in cache, because it's cheaper
 	exist := s.cache.Exists(key)
-	if !exist {
-		// if not existed in cache, check ChainState
+	if !exist && !s.rawCache().Exists(key) {
+		// if not existed in cache, check ChainState. (The metered cache also answers false when
+		// the block gas is used up; the tree must not be asked then about a key written or
+		// deleted in this block, so the cache is looked at once more without the meter.)
 		return s.cs.Exists(key)
 	}
 
